@@ -133,6 +133,7 @@ def build_harnesses(names):
 
 def coq_make(targets, timeout=3000, clean=False):
     cq = os.path.join(VERIF, "coq")
+    os.makedirs(os.path.join(VERIF, "ocaml", "gen"), exist_ok=True)      # target of the Extraction commands
     sh(["sh", os.path.join(cq, "mk.sh")])
     if clean:
         for t in targets:
